@@ -712,13 +712,17 @@ func runStateCallers(c *core.Ctx) {
 			}
 			// a method that both allocates and (on completion) releases is judged as release
 			var callers, bad []string
+			own := 0
 			for _, fn := range libFuncs(c) {
 				root := fn
 				for root.Parent() != nil {
 					root = root.Parent()
 				}
 				if recvTypeName(root) == st {
-					continue // the state's own methods
+					// the state's own methods: a private helper of the state is judged through
+					// the methods that use it (their effect kind includes the helper's)
+					own += len(callsTo(fn, m))
+					continue
 				}
 				if len(callsTo(fn, m)) == 0 {
 					continue
@@ -733,6 +737,9 @@ func runStateCallers(c *core.Ctx) {
 				if !ok {
 					bad = append(bad, fname(c, root))
 				}
+			}
+			if len(callers) == 0 && own > 0 {
+				continue
 			}
 			c.CountSites(1)
 			c.Check(len(bad) == 0 && len(callers) > 0, nil, fname(c, m), "callers("+kind+")", P.Pos(m.Pos()), fmt.Sprintf("%s state %s is called only by %v", kind, m.Name(), callers),
